@@ -131,8 +131,14 @@ def check_case(ctx, c):
         sv = getattr(e1, "singular_values_", None)
         if sv is None:
             sv = getattr(e1, "component_scaling_", None)
-        if sv is not None and np.size(sv) and np.min(np.abs(sv)) > 0:
-            tol = max(tol, min(1e-5, 1e-8 * float(np.max(np.abs(sv)) / np.min(np.abs(sv))) ** 2))
+        if sv is not None and np.size(sv):
+            cond = float(np.max(np.abs(sv)) / max(np.min(np.abs(sv)), 1e-300))
+            if cond > 1e6:
+                # rank-deficient training representation (e.g. two identical rows): transform divides by a vanishing
+                # singular value, no floating-point tolerance is meaningful there; logged, not judged
+                ctx.count("observation:rank-deficient-svd-not-judged")
+                return ctx.skip("uncompressed representation is numerically rank deficient (condition > 1e6)")
+            tol = max(tol, min(1e-5, 1e-8 * cond**2))
     if z.svd and p.get("memory_size") in ("64", "200", "1k", "4k"):
         tol = 2e-6  # multi-block fits spill their blocks as float32 before the SVD
     exact = False
